@@ -1,5 +1,5 @@
 SPECIFICATION Spec
-CONSTANTS MaxN = 5 MaxIter = 3 StrictA = TRUE
+CONSTANTS MaxN = 5 MaxIter = 3 StrictA = TRUE GenMod = 1
   AsIs_UnconditionalUnshuffle = FALSE Mut_NoReshuffle = FALSE Mut_FeedUnlabeled = FALSE Mut_InverseMixup = FALSE
 CONSTANT Thresholds <- ThrLow
 CONSTANT ShuffleVals <- BothB
